@@ -231,6 +231,12 @@ def o_key_address(case):
         got49 = node49.address()
         if got49 != exp49:
             _bad("key:bip49-address", "%s BIP49 node address %r, expected p2sh(p2wpkh(key)) %r" % (code, got49, exp49))
+        # the is_compressed argument every key's address() takes: the address pays to the hash of THAT form of the key
+        for comp in (True, False):
+            e = refaddr.address_for("p2sh", refaddr.hash160(refaddr.witness_script(0, hs[comp])), pf)
+            g = node49.address(is_compressed=comp)
+            if g != e:
+                _bad("key:bip49-address", "%s BIP49 node address(is_compressed=%s) = %r, expected p2sh(p2wpkh(hash160 of that form)) %r" % (code, comp, g, e))
         if exp49 is not None:
             labels.append("bip49")
             c = parse_addr(code, exp49)
@@ -241,6 +247,17 @@ def o_key_address(case):
     got84 = node84.address()
     if got84 != exp84:
         _bad("key:bip84-address", "%s BIP84 node address %r, expected p2wpkh(key) %r" % (code, got84, exp84))
+    for comp in (True, False):
+        e = refaddr.address_for("p2wpkh", hs[comp], pf)
+        g = node84.address(is_compressed=comp)
+        if g != e:
+            _bad("key:bip84-address", "%s BIP84 node address(is_compressed=%s) = %r, expected p2wpkh(hash160 of that form) %r" % (code, comp, g, e))
+    if defines(code, "p2pkh"):
+        for comp in (True, False):
+            e = refaddr.address_for("p2pkh", hs[comp], pf)
+            g = n.keys.bip32_deserialize(blob).address(is_compressed=comp)
+            if g != e:
+                _bad("key:bip32-address", "%s BIP32 node address(is_compressed=%s) = %r, expected %r" % (code, comp, g, e))
     if exp84 is not None:
         labels.append("bip84")
         c = parse_addr(code, exp84)
